@@ -263,6 +263,12 @@ def settle_loaders(w, timeout=0.2):
 def add_user(w, kind, base, kdf, password):
     """World.add_user with chosen KDF settings and password (World's own uses one fixed KDF)"""
     b = w.users[base]
+    cmd_clone = False
+    if w.enc and kind == 'clone' and (len(w.users) + len(password)) % 2 == 1:
+        # the clone as the COMMAND makes it (`add-key --clone` = the README's way to change a key's KDF parameters): the base user's own
+        # password, new KDF settings, issued from the unlocked repository.  What such a key may do is what the code's shared keys may do
+        # (a fresh salt gives it a user key of its own); keys issued FROM it extend the key graph.
+        kind, password, cmd_clone = 'shared', b.password, True
     if not w.enc or kind == 'clone':
         return w._new_user(b.key, b.password, False, False, 'clone', like=b).idx
     repo = w.repo(base)
@@ -291,9 +297,12 @@ def add_user(w, kind, base, kdf, password):
             key = open(out_path, 'rb').read()
         finally:
             os.unlink(out_path)
-    w.key_delivery.append(how)
+    w.key_delivery.append(how + (':cmd-clone' if cmd_clone else ''))
     if kind == 'shared':
-        return w._new_user(key, password, True, False, 'shared', like=b).idx
+        idx = w._new_user(key, password, True, False, 'shared', like=b).idx
+        if cmd_clone:
+            w.cmd_clones = getattr(w, 'cmd_clones', set()) | {idx}
+        return idx
     return w._new_user(key, password, True, True, 'independent').idx
 
 
@@ -566,6 +575,9 @@ def unlock_matrix(w, cfg, r, viol):
                     viol.append(('c06', 'access:key-relation', f'keys #{i} ({u.kind}) and #{j} ({v.kind}): same user key {same_key}, same family {same_fam}; expected {u.keyid == v.keyid}, {u.fam == v.fam}',
                                  {'kind': 'unlock'}))
     steps = [{'base': x['base'], 'kind': x['kind'], 'password': pwid.get(PASSWORDS[x['password']], 0), 'cfg': x['kdf'] + 1} for x in cfg['users']]
+    for k, x in enumerate(cfg['users']):
+        if (k + 1) in getattr(w, 'cmd_clones', ()):      # a clone made by the command: a shared key with the base user's password (what the code does)
+            steps[k] = dict(steps[k], kind='shared', password=pwid[w.users[x['base']].password])
     req = {'op': 'access.graph', 'password': pwid[b'pw0'], 'cfg': 1, 'steps': steps, 'attempts': attempts}
     return req, obs
 
@@ -771,6 +783,8 @@ def run_world(arg):
         # summary for non-triviality
         log['n_users'] = len(w.users)
         log['user_kinds'] = [uu.kind for uu in w.users]
+        log['cmd_clones'] = sorted(getattr(w, 'cmd_clones', ()))
+        log['keys_issued_from_cmd_clone'] = sum(1 for k, x in enumerate(cfg['users']) if x['base'] in getattr(w, 'cmd_clones', ()))
         log['keys_with_snapshots'] = len({(d['owner'], d['fam']) for d in w.snap_by_sid.values()})
         log['n_snapshots'] = len(w.snap_by_sid)
         extra.pop('recorded', None)
@@ -931,6 +945,8 @@ def run_keygraph(arg):
         log['unlock'] = unlock_matrix(w, cfg, r, log['violations'])
         log['n_users'] = len(w.users)
         log['user_kinds'] = [uu.kind for uu in w.users]
+        log['cmd_clones'] = sorted(getattr(w, 'cmd_clones', ()))
+        log['keys_issued_from_cmd_clone'] = sum(1 for k, x in enumerate(cfg['users']) if x['base'] in getattr(w, 'cmd_clones', ()))
     return log
 
 
